@@ -9,6 +9,7 @@ import (
 	"net/url"
 	"sort"
 	"strings"
+	"time"
 
 	"github.com/indexsupply/shovel/shovel/config"
 	"github.com/indexsupply/shovel/shovel/web"
@@ -25,6 +26,33 @@ func init() {
 func runC19(e *core.Env) error {
 	r := e.Rand
 	addrs := []string{"127.0.0.1:5000", "127.1.2.3:80", "[::1]:443", "[::ffff:127.0.0.1]:80", "10.0.0.5:1234", "192.168.1.1:80", "8.8.8.8:53", "[2001:db8::1]:80", "127.0.0.1", "localhost:80", "garbage", ""}
+	// more peers: addresses that LOOK like loopback in some of their bytes or spellings, and generated ones
+	addrs = append(addrs, "[2001:db8:aa:bb::7f00:1]:40000", "[::7f00:1]:80", "[::127.0.0.1]:80", "[fe80::1%eth0]:80", "[::1%lo]:80", "0.0.0.0:1",
+		"126.255.255.255:9", "128.0.0.1:9", "[::ffff:7f00:1]:80", "[::ffff:128.0.0.1]:80", "[64:ff9b::7f00:1]:80", "[7f00::1]:80", "[::1:0:0:1]:80", "127.0.0.1:x", "[::1]")
+	for i := 0; i < e.N(24, 240); i++ {
+		ip := make(net.IP, 16)
+		for k := range ip {
+			ip[k] = byte(r.Intn(256))
+		}
+		switch r.Intn(6) {
+		case 0: // IPv4, first octet around 127
+			ip = net.IPv4(byte(126+r.Intn(3)), ip[1], ip[2], ip[3])
+		case 1: // IPv4 anywhere
+			ip = net.IPv4(ip[0], ip[1], ip[2], ip[3])
+		case 2: // IPv6 whose low 32 bits read like an IPv4 loopback address
+			ip[12] = 0x7f
+		case 3: // mostly zero IPv6
+			for k := 0; k < 15; k++ {
+				if r.Intn(4) > 0 {
+					ip[k] = 0
+				}
+			}
+			ip[15] = byte(r.Intn(3))
+		case 4: // v4-mapped
+			copy(ip, net.IPv4(byte(126+r.Intn(3)), ip[13], ip[14], ip[15]).To16())
+		}
+		addrs = append(addrs, net.JoinHostPort(ip.String(), fmt.Sprint(1+r.Intn(65000))))
+	}
 	for _, disable := range []bool{false, true} {
 		for _, enforceLB := range []bool{false, true} {
 			for _, configured := range []bool{false, true} {
@@ -253,6 +281,88 @@ func runC19(e *core.Env) error {
 			keep(rec)
 		}
 		e.Add(core.Case{Impl: verdict, Spec: "ok", Key: fmt.Sprintf("c19-jar %v", enforceLB), Nontrivial: true, Tags: []string{"cookie-jar-without-password"}})
+	}
+	return c19Binary(e)
+}
+
+// c19Binary: the REAL shovel process (main()'s own route table and middleware included), its dashboard
+// reached over real TCP connections from loopback and, where the machine has one, from a non-loopback
+// address; with and without headers by which a client may CLAIM another address.
+func c19Binary(e *core.Env) error {
+	defer removeShovelBinary()
+	peers := localPeers()
+	claims := []struct{ name, header, value string }{{"none", "", ""}, {"xff-v4", "X-Forwarded-For", "127.0.0.1"}, {"xff-v6", "X-Forwarded-For", "::1"},
+		{"xff-list", "X-Forwarded-For", "127.0.0.1, 203.0.113.9"}, {"x-real-ip", "X-Real-IP", "127.0.0.1"}, {"forwarded", "Forwarded", "for=127.0.0.1"}}
+	b2 := func(b bool) string {
+		if b {
+			return "1"
+		}
+		return "0"
+	}
+	for _, disable := range []bool{false, true} {
+		for _, enforceLB := range []bool{false, true} {
+			doc := func(pgurl string) string {
+				return fmt.Sprintf(`{"pg_url": %q, "dashboard": {"root_password": "pw-e2e", "disable_authn": %v, "enable_loopback_authn": %v}, "eth_sources": [], "integrations": []}`, pgurl, disable, enforceLB)
+			}
+			p, err := startShovel(e, doc)
+			if err != nil {
+				e.Add(core.Case{Impl: "the shovel binary did not start: " + err.Error(), Spec: "started", Key: fmt.Sprintf("c19-bin-start %v %v", disable, enforceLB), Tags: []string{"binary"}})
+				continue
+			}
+			cl := &http.Client{Timeout: 5 * time.Second, CheckRedirect: func(*http.Request, []*http.Request) error { return http.ErrUseLastResponse }}
+			// a session, obtained with the password
+			session := ""
+			if resp, err := cl.PostForm(fmt.Sprintf("http://127.0.0.1:%d/login", p.port), url.Values{"password": {"pw-e2e"}}); err == nil {
+				for _, c := range resp.Cookies() {
+					session = c.Name + "=" + c.Value
+				}
+				resp.Body.Close()
+			}
+			if session == "" {
+				e.Add(core.Case{Impl: "login with the configured password issued no cookie", Spec: "cookie issued", Key: fmt.Sprintf("c19-bin-login %v %v", disable, enforceLB), Tags: []string{"binary"}})
+			}
+			for _, peer := range peers {
+				lb := net.ParseIP(peer).IsLoopback()
+				reach := false
+				for _, claim := range claims {
+					for _, ck := range []string{"none", "mine", "garbage"} {
+						for _, route := range []struct{ method, path string }{{"GET", "/add-source"}, {"POST", "/save-integration"}, {"GET", "/add-integration"}} {
+							req, _ := http.NewRequest(route.method, "http://"+hostPort(peer, p.port)+route.path, strings.NewReader("{"))
+							if claim.header != "" {
+								req.Header.Set(claim.header, claim.value)
+							}
+							switch ck {
+							case "mine":
+								req.Header.Set("Cookie", session)
+							case "garbage":
+								req.Header.Set("Cookie", "session=Zm9vYmFy")
+							}
+							resp, err := cl.Do(req)
+							if err != nil {
+								continue // this address cannot be reached here
+							}
+							reach = true
+							impl := "served"
+							if resp.StatusCode == http.StatusSeeOther && resp.Header.Get("Location") == "/login" {
+								impl = "redirect-login"
+							}
+							resp.Body.Close()
+							allowed := disable || (!enforceLB && lb) || (ck == "mine" && session != "")
+							spec := "redirect-login"
+							if allowed {
+								spec = "served"
+							}
+							e.Add(core.Case{Op: fmt.Sprintf("authn %s %s %s %s", b2(disable), b2(enforceLB), b2(lb), ck), Impl: impl, Spec: spec, Nontrivial: true,
+								Key:    fmt.Sprintf("authn-bin %v %v %s %s %s %s", disable, enforceLB, peer, claim.name, ck, route.path),
+								Tags:   []string{"binary", "claim=" + claim.name, fmt.Sprintf("peer-loopback=%v", lb), "cookie=" + ck, "impl:" + impl},
+								Detail: map[string]any{"peer": peer, "claimed_by_header": claim.header + ": " + claim.value, "route": route.method + " " + route.path}})
+						}
+					}
+				}
+				e.Add(core.Case{Impl: "ok", Key: fmt.Sprintf("c19-bin-peer %s %v", peer, reach), Tags: []string{fmt.Sprintf("peer-reachable=%v", reach), fmt.Sprintf("peer-loopback=%v", lb)}})
+			}
+			p.stop()
+		}
 	}
 	return nil
 }
